@@ -129,3 +129,57 @@ def m1_probe(run, a):
     props = sorted({f['what'].split()[2] for f in run.oracle_fails if len(f['what'].split()) > 2})
     log('M1-probe failing properties:', props, ' breakage:', [b['what'][:80] for b in run.broken][:3])
     return run.finish(level='other', explanation='probe')
+
+
+@drv.check('C18')
+def c18(run, a):
+    vlib.extract()
+    vlib.standard_lean_phase(run, 'BytesVerif.Props.C18', None, ['BytesVerif.Props.C08'])
+    for t in ['BytesVerif.Core.reclaim_whole', 'BytesVerif.Core.reserve_whole_no_alloc']:
+        ok, found, problems = vlib.audit_axioms(['BytesVerif.Props.C08'], [t], 'C18w')
+        run.obligation(t, ok, '; '.join(problems))
+        run.axioms[t] = found.get(t)
+        if not ok:
+            run.breakage('in-particular clause of C18 (Props/C08) no longer checks', t)
+    run.trusted += [
+        "the recycling model Model/Recycle.lean (allocation size / offset / len / cap / parts / pinned allocations / allocation count; the allocation "
+        "decisions of reserve_inner transliterated a second time at this level) — tied by T2: lock-step comparison of (allocation size, offset, len, "
+        "capacity, byte-buffer allocation count, live byte-buffer bytes) after every operation of every round",
+        "the refill bound `leftover + message <= M` and the retention policy are properties of the usage pattern (hypotheses HistOK / Recycled)",
+        "harness hseq recycle stream under the ledger allocator + judge parser; std Vec growth policy max(2*cap, needed, 8)",
+    ]
+    profile = 'release' if run.tier == 'thorough' else 'debug'
+    binpath = os.path.join(os.path.dirname(vlib.cargo_build(profile)), 'hseq')
+    n = '30000' if run.tier == 'thorough' else '1000'
+    if a.replay:
+        # replay file: `pattern c0 M style window rounds`
+        args = open(a.replay).read().split('pattern ')[-1].split()[:5]
+        cmd = [binpath, 'recycle', 'pattern'] + args
+    else:
+        cmd = [binpath, 'recycle', n]
+    out, hrc, jrc, herr = vlib.pipe(cmd, ['recycle'])
+    if hrc != 0 or jrc != 0:
+        run.breakage('recycle stream did not complete', f'harness rc={hrc} judge rc={jrc}\n{herr[-500:]}')
+    for ln in out:
+        tags, d = vlib.kv(ln)
+        if not tags:
+            continue
+        if tags[0] == 'oracle-fail':
+            pat = d.get('pattern', '').replace('_', ' ')
+            m = {k: v for k, v in (w.split('=') for w in pat.split() if '=' in w)}
+            rep = f"pattern {m.get('c0')} {m.get('M')} {m.get('style')} {m.get('window')} {m.get('rounds')}\n# last ops: " + d.get('ops', '').replace('~', ' ')
+            run.fail('what=' + d.get('what', '')[:50], ln.split(' pattern=')[0], rep)
+        elif tags[0] in ('model-diff', 'bad-trace'):
+            run.breakage('correspondence (recycle stream): ' + tags[0], ln)
+        elif tags[0] == 'summary':
+            run.cov['t2_recycle'] = d
+            run.cov['evaluations'] = int(d.get('steps', 0))
+            run.cov['distinct_nontrivial'] = int(d.get('patterns', 0))
+    run.cov['rule'] = ("T2: recycling patterns on a real BytesMut under the ledger allocator: initial capacity {0,16,1024,65536} x message bound M "
+                       "{16,100,4096,70000} x consumption style {split_to, split, advance, truncate, split_to+freeze, round trip through Bytes, "
+                       "split_off tail + unsplit, random mix} x retention window {0,2}, seeded message / leftover sizes, N rounds (quick 10^3, thorough "
+                       "3*10^4 and 3*10^5); oracles: largest allocation <= max(A0,4M,8), live bytes <= (window+2) x that, no allocation once the buffer "
+                       "reached 2M (window 0); distinct_nontrivial = patterns run")
+    run.samples += ['r append 11 ; rs A=12 off=0 len=12 cap=12 allocs=4 live=41 parts=0 pinned=2',
+                    'theorem alloc_size_bounded (A0 M ops) (h : HistOK M (init A0) ops) : (run (init A0) ops).A <= B A0 M ∧ ∀ a ∈ pinned, a <= B A0 M']
+    return run.finish()
